@@ -63,11 +63,13 @@ func main() {
 			collectRaces(c, prefix, arg)
 		}(w)
 	}
-	wg.Add(1)
-	go func() {
-		defer wg.Done()
-		blackbox(c)
-	}()
+	if os.Getenv("C10_NO_BLACKBOX") == "" { // switch for sensitivity experiments on scratch copies only
+		wg.Add(1)
+		go func() {
+			defer wg.Done()
+			blackbox(c)
+		}()
+	}
 	wg.Wait()
 	for _, cat := range required {
 		if c.DistinctCount("reached "+cat) == 0 {
